@@ -37,6 +37,9 @@ import (
 const (
 	slotNum = 16384
 
+	// maxRedirections is how many times a request follows MOVED/ASK.
+	maxRedirections = 16
+
 	ASKING      = "asking"
 	MOVED       = "moved"
 	ASK         = "ask"
@@ -351,6 +354,17 @@ func (u *upstream) handleRedirection(req *simpleRequest, resp *RespValue) {
 		req.SetResponse(resp)
 		return
 	}
+	// NOTE: a redirection is only followed a limited number of times. A sane
+	// cluster needs one or two hops. Without a limit a node which answers every
+	// request with a redirection keeps the requests circulating for ever, and
+	// with ASK - its own ASKING included - doubles them at every hop until the
+	// backend queues are full and their readers and writers block each other.
+	if req.redirections >= maxRedirections {
+		req.SetResponse(resp)
+		return
+	}
+	req.redirections++
+
 	hostAddr := err[2]
 	switch strings.ToLower(err[0]) {
 	case MOVED:
@@ -360,6 +374,8 @@ func (u *upstream) handleRedirection(req *simpleRequest, resp *RespValue) {
 		askingReq := newSimpleRequest(newArray(
 			*newBulkString(ASKING),
 		))
+		// the answer to ASKING itself is never followed.
+		askingReq.redirections = maxRedirections
 		// NOTE: ASKING only covers the very next command of the connection, so
 		// the two requests must not be separated by other traffic.
 		u.makeRequestsToHost(hostAddr, askingReq, req)
